@@ -87,7 +87,10 @@ class TKEY(dns.rdata.Rdata):
         )
 
     def _to_wire(self, file, compress=None, origin=None, canonicalize=False):
-        self.algorithm.to_wire(file, compress, origin)
+        # not a well-known type: the name must not be compressed (RFC 3597 section 4); it
+        # keeps its case in the canonical form, so compressing it against a differently-cased
+        # earlier name changed the record
+        self.algorithm.to_wire(file, None, origin)
         file.write(
             struct.pack("!IIHH", self.inception, self.expiration, self.mode, self.error)
         )
